@@ -358,6 +358,56 @@ def sctx(repo: Repo, cls: Optional[str], name: str, module: Optional[str] = None
     return SCtx(cx)
 
 
+def truthiness_uses(sx: "SCtx", optional: Iterable[tuple]) -> List[str]:
+    """places where the *truth value* of one of the optional terms decides something (`if x:`, `x or default`, a
+    comprehension filter `if v` over a mapping of them) -- wrong wherever 0, 0.0, '' or an empty selection is a
+    legitimate value and only None means "not given" """
+    opt = set(optional)
+
+    def denotes_optional(t) -> bool:
+        if t in opt:
+            return True
+        if t[:1] in (("val",), ("elem",)):
+            src = t[1]
+            vals = []
+            if S.is_call_of(src, ("glob", "dict")):
+                vals = [v for _k, v in src[3]]
+            elif src[:1] == ("dict",):
+                vals = [v for _k, v in src[1]]
+            elif src[:1] in (("tuple",), ("list",)):
+                vals = list(src[1])
+            elif src[:1] == ("acc",):
+                vals = [c[3] if c[0] == "kv" else c[2] for c in src[2] if c[0] in ("kv", "one")]
+            return bool(vals) and any(denotes_optional(v) for v in vals)
+        if t[:1] == ("alt",):
+            return any(denotes_optional(a) for a in t[1])
+        return False
+
+    def bare(t):
+        while t[:1] == ("uop",) and t[1] == "not":
+            t = t[2]
+        return t
+    found = []
+    for n in sx.cfg.nodes.values():
+        if n.kind == "test":
+            t = sx.sym.of(n.ast, n.id)
+            parts = list(t[2]) if t[:1] == ("bool",) else [t]
+            for p_ in parts:
+                if denotes_optional(bare(p_)):
+                    found.append(f"{sx.loc(n.id)}: `{S.show(p_, False)[:60]}` tested by truth value")
+    for ev in sx.events:
+        for tm in ([ev.term] if ev.kind == "call" else [x for x in (ev.value,) if x is not None]):
+            for s_ in S.subterms(tm):
+                if s_[:1] == ("acc",):
+                    for c in s_[2]:
+                        for pol, g in (c[1] if c[0] != "reorder" else ()):
+                            if denotes_optional(bare(g)):
+                                found.append(f"{sx.loc(ev)}: filter `{S.show(g, False)[:60]}` by truth value")
+                elif s_[:1] == ("bool",) and s_[1] == "or" and len(s_[2]) >= 2 and denotes_optional(s_[2][0]):
+                    found.append(f"{sx.loc(ev)}: `{S.show(s_, False)[:70]}` substitutes the default for every falsy value")
+    return list(dict.fromkeys(found))
+
+
 def shared(col: Collector, rule: str, fns, select=None, why: str = ""):
     """Run rule functions of another property into a scratch collector and adopt their obligations under `rule`.
 
